@@ -673,6 +673,17 @@ func ruleEqualityForSuccess(c *Ctx, rid string) {
 							if ex, ok := at.X.(*ssa.Extract); ok && ex.Tuple == ssa.Value(cr) && ex.Index == 1 && !at.Pos {
 								s.Done[i] = true
 							}
+							// the presented value is the key of a successful lookup in a map of the
+							// receiver: equal to a configured name by the map's own comparison
+							if ex, ok := at.X.(*ssa.Extract); ok && ex.Index == 1 && at.Pos {
+								if lk, ok := ex.Tuple.(*ssa.Lookup); ok && lk.CommaOk {
+									if kx, ok := strip(lk.Index).(*ssa.Extract); ok && kx.Tuple == ssa.Value(cr) && kx.Index == 0 {
+										if _, _, base, ok := fieldOf(lk.X); ok && strip(base) == ssa.Value(fn.Params[0]) {
+											s.Done[i] = true
+										}
+									}
+								}
+							}
 						case "eq":
 							if !at.Pos {
 								continue
